@@ -239,7 +239,8 @@ func selftestVariants(ids []string) int {
 			continue
 		}
 		var meta struct {
-			Property string `json:"property"`
+			Property  string `json:"property"`
+			Only64bit bool   `json:"only_64bit"` // the change itself breaks on 32-bit platforms (the 32-bit batch says so, rightly)
 		}
 		b, err := os.ReadFile(filepath.Join(dir, e.Name(), "meta.json"))
 		if err != nil || json.Unmarshal(b, &meta) != nil || meta.Property == "" {
@@ -270,12 +271,26 @@ func selftestVariants(ids []string) int {
 		}
 		cmd := exec.Command(exe, meta.Property, "--wall", wall)
 		cmd.Env = append(os.Environ(), "VERIF_REPO="+tmp, "VERIF_DIR="+verifDir, "VERIF_NO_EVIDENCE=1")
+		if meta.Only64bit {
+			cmd.Env = append(cmd.Env, "VERIF_NO_ARCH32=1")
+		}
 		out, _ := cmd.CombinedOutput()
 		os.RemoveAll(tmp)
 		code := cmd.ProcessState.ExitCode()
 		status := "silent"
+		if meta.Only64bit {
+			status = "silent (64-bit worlds only: the change itself is broken on 32-bit platforms)"
+		}
 		if code != 0 || strings.Contains(string(out), "VIOLATION property=") {
 			status = fmt.Sprintf("ALARM (exit %d) %s", code, firstLine(out, "violation:"))
+			if code != 1 {
+				// infrastructure trouble: show what the check said
+				t := string(out)
+				if len(t) > 3000 {
+					t = t[len(t)-3000:]
+				}
+				status += "\n" + t
+			}
 			alarms++
 		}
 		fmt.Printf("%-8s %s: %s\n", e.Name(), meta.Property, status)
